@@ -283,8 +283,109 @@ def configured_cases(ctx):
                            "consumed_before_reset": k, "first_failing_clause": "reset() = a newly constructed, identically seeded and configured instance"})
 
 
+# ---- patterns that were not built by one constructor call with their final arguments ----------------------------------
+# "reset() makes a pattern produce exactly the sequence that a newly constructed ... instance produces, and the same is true of
+# every pattern nested inside it" — however the nesting came about: through the bracket notation (the parser creates empty
+# sequences and fills them afterwards), through Pattern.pattern(), or through a list that received its nested patterns after
+# the sequence object existed.
+
+def construction_route_cases(ctx):
+    common.ensure_repo_on_path()
+    import isobar as iso
+    from isobar.notation import parse_notation
+    r = ctx.rng
+
+    def tree(depth):
+        n = r.randint(1, 4)
+        out = []
+        for _ in range(n):
+            if depth < 3 and r.random() < 0.4:
+                out.append(tree(depth + 1))
+            else:
+                out.append(r.randint(-9, 40))
+        return out
+
+    def fmt(t):
+        return " ".join("[%s]" % fmt(x) if isinstance(x, list) else str(x) for x in t)
+
+    def has_group(t):
+        return any(isinstance(x, list) for x in t)
+
+    def by_constructor_later(t):
+        # the list is filled after the sequence exists (what the parser does, done by hand)
+        p = iso.PSequence([])
+        for x in t:
+            p.sequence.append(by_constructor_later(x) if isinstance(x, list) else x)
+        return p
+
+    def pull(o, m):
+        out = []
+        for _ in range(m):
+            try:
+                out.append(next(o))
+            except StopIteration:
+                out.append("stop")
+                break
+        return out
+
+    for i in range(ctx.scale(250, 8000)):
+        t = tree(0)
+        if not has_group(t):
+            t.append(tree(1))
+        route = r.choice(["notation", "notation", "Pattern.pattern", "filled-later", "event-value"])
+        shape = r.choice(["direct", "direct", "operand", "stutter", "item"])
+        text = fmt(t)
+
+        def make():
+            if route == "notation":
+                core = parse_notation(text)
+            elif route == "Pattern.pattern":
+                core = iso.Pattern.pattern(text)
+            elif route == "event-value":
+                core = iso.PDict({"note": text})["note"]
+            else:
+                core = by_constructor_later(t)
+            if shape == "operand":
+                return core + 0
+            if shape == "stutter":
+                return iso.PStutter(core, 2)
+            if shape == "item":
+                return iso.PSequence([core, -1], 3)
+            return core
+        n = r.randint(6, 30)
+        k = r.choice([1, 2, 3, 5, 7, r.randint(1, 25)])
+        how = r.choice(["reset", "reset", "reset2", "all", "len"])
+        try:
+            fresh = pull(make(), n)
+            o = make()
+            pull(o, k)
+            if how == "reset":
+                o.reset()
+            elif how == "reset2":
+                o.reset()
+                o.reset()
+            elif how == "all":
+                o.all(1000)
+            else:
+                len(o)
+            again = pull(o, n)
+        except Exception as ex:
+            fresh, again = None, "raised %s" % type(ex).__name__
+        ctx.case(("route", route, shape, text, k, how), nontrivial=True, validated=False,
+                 sample={"route": route, "shape": shape, "notation": text, "consumed": k, "helper": how} if i < 3 else None)
+        ctx.count("route:" + route, "route-shape:" + shape, "route-helper:" + how)
+        if fresh != again:
+            ctx.violation("C04:nested-not-rewound:" + route,
+                          "%r built through %s (%s): after %d values and %s it plays %s, a newly built one %s"
+                          % (text, route, shape, k, how, again[:14] if isinstance(again, list) else again, (fresh or [])[:14]),
+                          {"suite": "c04-route", "route": route, "shape": shape, "notation": text, "consumed": k, "helper": how,
+                           "after": repr(again)[:400], "fresh": repr(fresh)[:400],
+                           "first_failing_clause": "the same is true of every pattern nested inside it"})
+
+
 def run(ctx):
     structure_change_cases(ctx)
+    construction_route_cases(ctx)
     configured_cases(ctx)
     boundary_all_cases(ctx)
     classes = pat_props.focus_classes()
